@@ -58,10 +58,14 @@ def segCmp : Seg → Seg → Ordering
   | .num _, .str _ => .gt
   | .str a, .str b => List.compareLex compare a b
 
+/-- The loop of `<=>` once the left side is exhausted (`lhsegments[i] || 0`). -/
+def padCmpNil : List Seg → Ordering
+  | [] => .eq
+  | b :: bs => (segCmp (.num 0) b).then (padCmpNil bs)
+
 /-- The loop of `<=>`: position by position, a missing segment is `0`. -/
 def padCmp : List Seg → List Seg → Ordering
-  | [], [] => .eq
-  | [], b :: bs => (segCmp (.num 0) b).then (padCmp [] bs)
+  | [], bs => padCmpNil bs
   | a :: as, [] => (segCmp a (.num 0)).then (padCmp as [])
   | a :: as, b :: bs => (segCmp a b).then (padCmp as bs)
 
